@@ -189,6 +189,28 @@ pub fn c05_case(ctx: &mut Ctx, rng: &mut Rng, stage: &str, xdir: &str) {
             return;
         }
     };
+    // the same bytes delivered in small pieces (a pipe, a chained buffer) must load as well
+    {
+        let mode = (fail_k_frac % 2) as u8 + 1;
+        let rdr = ChunkReader { data: &bytes, pos: 0, rng: Rng(fail_k_frac | 1), mode, fail_at: None };
+        match guarded(|| Dictionary::read(rdr).map_err(|e| e.to_string())) {
+            Ok(Ok(dx)) => match write_dict(&dx) {
+                Ok((bx, _)) if bx == bytes => ctx.bucket("image_read_through_chunked_reader"),
+                _ => {
+                    ctx.violation("chunked_read_changes_dictionary", "C05:chunked_read_changes_dictionary", format!("reader mode {mode}"), cj(""));
+                    return;
+                }
+            },
+            Ok(Err(e)) => {
+                ctx.violation("written_image_rejected_through_chunked_reader", "C05:written_image_rejected_through_chunked_reader", format!("reader delivering random chunks (mode {mode}): {e}"), cj(""));
+                return;
+            }
+            Err(p) => {
+                ctx.violation("read_panicked", &format!("C05:read:{}", panic_class(&p)), p, cj(""));
+                return;
+            }
+        }
+    }
     let (b2, _) = match write_dict(&d2) {
         Ok(x) => x,
         Err(e) => {
@@ -753,6 +775,30 @@ pub fn c07_case(ctx: &mut Ctx, rng: &mut Rng, stage: &str) {
                     None => {
                         ctx.violation(&format!("{name}_dictionary_does_not_round_trip"), &format!("C07:{name}_dictionary_does_not_round_trip"), "write/read failed".into(), cj(String::new()));
                         return;
+                    }
+                }
+                // ... and after a random permutation of the connection ids (compact connectors permute rows)
+                if let Ok(BuildOutcome::Ok(dm)) = guarded(|| build_spec(spec)) {
+                    let (pl, pr) = (gen_perm_ids(rng, nl), gen_perm_ids(rng, nr));
+                    let (li, ri) = (perm_to_iter(&pl), perm_to_iter(&pr));
+                    match guarded(move || dm.map_connection_ids_from_iter(li, ri).map_err(|e| e.to_string())) {
+                        Ok(Ok(dm)) => {
+                            let spec_m = spec.mapped(&pl, &pr);
+                            let refm = RefDict::new(&spec_m, None);
+                            if let Some(m) = conn_mismatch(&dm, &refm) {
+                                ctx.violation(&format!("{name}_connector_differs_after_id_mapping"), &format!("C07:{name}_connector_differs_after_id_mapping"), format!("lmap {:?} rmap {:?}: {m}", perm_to_iter(&pl), perm_to_iter(&pr)), cj(String::new()));
+                                return;
+                            }
+                            ctx.bucket("connector_compared_after_id_mapping");
+                        }
+                        Ok(Err(e)) => {
+                            ctx.violation(&format!("{name}_valid_mapping_rejected"), &format!("C07:{name}_valid_mapping_rejected"), e, cj(String::new()));
+                            return;
+                        }
+                        Err(p) => {
+                            ctx.violation(&format!("{name}_mapping_panicked"), &format!("C07:{name}_mapping:{}", panic_class(&p)), p, cj(String::new()));
+                            return;
+                        }
                     }
                 }
                 dicts.push((name, d));
